@@ -213,41 +213,62 @@
           with more room (`monoR_addRrsetOp`, `monoR_addRrOp`); hence `addRrsetOp_trunc_down`: rejected
           with `Truncation` in the big room ⇒ `Truncation` (or a panic) in the small room.  No `CapPre`
           is needed: monotonicity covers every non-`Truncation` error;
-        · Proofs/ServerAnswerTwoRun.lean (new): `TwoP` — the two-run induction over query.rs
-          (`twoPF_inner`, `inner_two_run`): big-room success that fits the small room ⇒ small-room
-          success with the same log, dropped optional calls included; the relation carried between the
-          runs is `Same` (agreement on everything but the octets at and above the cursor) composed
-          with `lift d`;
-        · the named hypothesis `ServerAnswer.ScratchIndep` (Proofs/ServerAnswerTwoRun.lean), NOT proved:
-          a writer call of the answering phase (`set_aa`, `set_rcode`, `add_rr`, `add_rrset`) run on two
-          states that agree on everything but the octets at and above the cursor (`Same s t`, equal
-          hint vectors) has the same outcome and leaves two such states with equal hint vectors.  It is
-          needed because `with_rollback` restores the cursor and the counts but not the octets: after a
-          dropped optional call the two runs differ in the scratch area above the cursor.
-          `compress_decision s.octets …` is the only reader of the octets and has to be shown to look only
-          below the cursor (the global compression state points below the cursor: writer territory,
-          Proofs/Writer*.lean has the invariant for `CLay` states but no such congruence).
-      What remains of `C10_row3_compare`, precisely:
-      (R1) `ScratchIndep` (above) — one congruence lemma of the writer;
-      (R2) the decoder side: C12's `finish_decodes_content` does not determine the decoded (expanded)
-           RDATA of types with compressible names (`RMatch` speaks about RDATA only for layouts without
-           one), while the audit compares `rrKey`, RDATA included, of answer and authority records (NS,
-           CNAME, SOA, MX …).  So even from identical logs the clause needs `finish_decodes_rdata` — the
-           decoded RDATA is a function of the logged record — or a decoder congruence: two finished
-           messages that agree on every octet below the common cursor except ARCOUNT decode to the same
-           answer / authority sections (true because the writer emits only backward pointers at or
-           above offset 12; `NameDecode.decodes_prefix` covers only prefix extensions);
-      (R3) the assembly, not yet written (glue of the same kind as `C10_audit_authenticated_answer`):
-           from `AuditRun` + `RowAuthAnswer` the signed final writer (`signed_answer_facts_of_run`,
-           `decoded_answer_tsig`) and from `plain_answer_run` the plain one (`answer_final_good`,
-           `decoded_of_good_view'`); the premises of `signed_handler_eq_plain` from the decoded guards
-           (TC / RCODE of a decoding are those of the view: `flags_of_hdrView`; `pb.size` is the plain
-           final cursor and the audit's `need` is `reservedLen`: `auditNeed_eq`, `reserved_of_auth`;
-           ARCOUNT + 1 ≤ 65535 from the size of the message: ≥ 11 octets per record); then equal
-           views + (R2) give equal `rrKey` multisets for answer / authority, and the signed additional
-           section is the plain one plus the TSIG record (`plainRrs` drops OPT and TSIG).
+        · Proofs/ServerAnswerTwoRunI.lean (new): the two-run induction over query.rs, localized at the
+          real plain run: the judgement `SafeX` = C01's `SafeP` (so the writer's invariant `Writer.I` and
+          the validity of every hint are at hand at each call — the same induction as
+          Proofs/ServerQuery.lean, run once more) plus `MonoAt` (cursor / ARCOUNT grow, `available` fixed)
+          plus `TwoAt`: if the run from a plain-run state succeeds, fits the signed room and leaves
+          ARCOUNT below its maximum, then the run from any signed-side state `A` related to it
+          (`Same A a0`, `lift R a0 = modS L T (plain state)`) that does not panic succeeds with the same
+          result and log — dropped optional calls included — and the final states are related again
+          (`inner_safeX`);
+        · the named hypothesis `ServerContent.ScratchIndepI` (Proofs/ServerAnswerTwoRunI.lean), NOT proved:
+            ∀ c u s t, Writer.I u → AnsPre c u → FieldsOnly u s → Same s t → s.hv = t.hv →
+              (c.run t).1 = (c.run s).1 ∧ Same (c.run s).2 (c.run t).2 ∧ (c.run s).2.hv = (c.run t).2.hv
+          — next to a state `u` that satisfies the writer's structural invariant and the call's
+          precondition (well-formed owner, valid hint: `AnsPre`), a writer call of the answering phase
+          (`set_aa`, `set_rcode`, `add_rr`, `add_rrset`) run on `s` (= `u` up to `limit`, `available`,
+          the TSIG slot and ARCOUNT: `FieldsOnly`) and on any `t` that agrees with `s` on everything but
+          the octets at and above the cursor has the same outcome and leaves two such states with equal
+          hint vectors.  It is needed because `with_rollback` restores the cursor and the counts but not
+          the octets: after a dropped optional call the two runs differ in the scratch area above the
+          cursor; `compress_decision s.octets …` is the only reader of the octets and has to be shown to
+          look only below the cursor (where `Writer.I` places every prior name and `HintOK` every hint).
+          (An earlier form without the invariant, `ServerAnswer.ScratchIndep` in
+          Proofs/ServerAnswerTwoRun.lean, is FALSE for states whose prior names or hints point at or
+          above the cursor; it is kept only as the source of the pass and is used by nothing in C10.)
+      The assembly is done too: `C10_row3_compare_of : ScratchIndepI → DecodeCongr → C10_row3_compare`,
+      hence `C10_full_of : ScratchIndepI → DecodeCongr → C10_full` — **`C10_full` is proved modulo exactly
+      two named hypotheses**, both facts about the writer / decoder alone (no server logic left):
+      (R1) `ServerContent.ScratchIndepI` (Proofs/ServerAnswerTwoRunI.lean, above) — next to an invariant
+           state with a valid hint, a writer call of the answering phase does not read octets at or
+           above the cursor;
+      (R2) `ServerContent.DecodeCongr` (Proofs/ServerSignedCompare.lean) — two `Good` writers with the
+           same body (own additional records: address records) that agree on everything below the
+           cursor up to the room, the TSIG slot and ARCOUNT + 1 (`modS L T F2 = lift R t0 ∧ Same F1 t0`)
+           finish into messages whose decodings have the same `rrKey`s in the answer and authority
+           sections and the same `plainRrs` (additional records other than OPT / TSIG).  True because
+           both decodings read the same octets (records below the common cursor, backward pointers
+           only).  C12's `finish_decodes_content` alone does not give it (`RMatch` speaks about RDATA
+           only for layouts without a compressible name); `finish_decodes_rdata`
+           (Proofs/WriterContentDecode.lean) gives the expanded RDATA up to ASCII case of name octets in
+           Standard mode, so the route is decoder determinism on the common prefix (same chain over
+           the same octets ⇒ same items ⇒ same decoded records), not the given RDATA.
+      What the assembly (`ServerContent.compare_core`, Proofs/ServerSignedCompare.lean) proves: from
+      `AuditRun` + `RowAuthAnswer` the signed final writer and from `plain_answer_run` the plain one,
+      both exposed as the writers of `handle_non_axfr_query`'s logged runs from `S` and from the scan
+      state `SS`, `S = withTsig (stRcode 0 SS) …` (`answer_exposed`); the guards on the decodings are
+      the guards on the views (`decoded_answer_tsig`, `decoded_of_good_view'`, `view_handle_flags`);
+      the audit's room guard is the writer's (`scanState_room`: `SS.available` = the transport's limit
+      minus the reserved OPT; `finish_inv_tail`: `pb.size` = final cursor + OPT; `reserved_of_auth`:
+      the audit's TSIG size = `reservedLen`); ARCOUNT + 1 ≤ 65535 from `CapJ.inner` (`CountInv`: ten
+      octets per counted record); then `signed_handler_eq_plain` gives equal views — RCODE and AA
+      follow — and, when the plain answering logic succeeded, final writers related as `DecodeCongr`
+      wants; when it failed, both views are SERVFAIL with empty sections and the signed additional
+      section holds only the OPT and the TSIG record.
 
-  Proved: (a)–(o).  Not proved, precisely:
+  Proved: (a)–(o), and `C10_full_of : ScratchIndepI → DecodeCongr → C10_full`.  Not proved, precisely: the two
+  named hypotheses (R1), (R2) above.  History of the reduction (all closed modulo (R1), (R2)):
   (1) `C10_row3` — the one obligation `C10_full` is reduced to (`C10_of_row3`): an authenticated request
       that a loaded zone *answers* passes the audit.  Everything that does not depend on the row is in
       place and applies verbatim (`auditResponse_authenticated`; `response_mac_audit` and
@@ -321,6 +342,7 @@ import QV.Proofs.AuditMac
 import QV.Proofs.AuditPlain
 import QV.Proofs.ServerSignedTable
 import QV.Proofs.ServerSignedPlain
+import QV.Proofs.ServerSignedCompare
 
 namespace QV.C10
 open QV QV.Server QV.Writer QV.Tsig QV.ServerTsig
@@ -2004,6 +2026,49 @@ theorem C10_row3_of_compare (hc : C10_row3_compare) : C10_row3 := by
         hdm hpl hpd htc hptc hcmp hroom hrc2)
 
 open QV.ServerScan in
+/-- **the comparison clause, modulo two named writer / decoder hypotheses**: `C10_row3_compare` holds as
+    soon as `ServerContent.ScratchIndepI` (next to a state satisfying the writer's invariant, with a valid
+    hint, a writer call of the answering phase does not read octets at or above the cursor;
+    Proofs/ServerAnswerTwoRunI.lean) and `ServerContent.DecodeCongr` (two finished
+    `Good` writers that agree below the cursor decode to the same records; Proofs/ServerSignedCompare.lean)
+    do.  Everything else — the two runs start from the same scan state (`plain_answer_run`), the
+    signed run shows the same view as the plain one under the clause's guards
+    (`signed_handler_eq_plain`), the guards on the decodings are the guards on the views, the room the
+    audit computes is the writer's — is proved (`ServerContent.compare_core`). -/
+theorem C10_row3_compare_of (hSI : ServerContent.ScratchIndepI) (hDC : ServerContent.DecodeCongr) : C10_row3_compare := by
+  intro cfg cat tr now req hnow hcfg hpay hp16 hreq hk nowT t mw r' question d kn alg rest h hrow b hb dm pb pd
+    hdm hpl hpd htc hptc hcmp hroom hrc2
+  obtain ⟨hrM, iq, ie, il⟩ := h.scanM
+  obtain ⟨r'', S, hT, hev⟩ := hrow
+  refine ServerContent.compare_core hSI hDC cfg hcfg cat tr now req (minBuf_le tr _ hp16) hpay hp16 hreq hrM iq ie il
+    t mw r' question h.hrun r'' S hT hev b hb d h.hfind h.hpos h.hdsz h.hnext h.hnsz h.hcur hcmp pb ?_ dm pd hdm hpd
+    htc hptc ?_ hrc2
+  · intro p hp
+    rw [hp] at hpl
+    simp only at hpl
+    rcases hm : handleMessage cfg tr now 65535 p with (_ | bb) | x | _
+    · rw [hm] at hpl; simp [toResp] at hpl
+    · rw [hm] at hpl; simp only [toResp, Spec.ServerTsig.Resp.bytes.injEq] at hpl; rw [hpl]
+    · rw [hm] at hpl; simp [toResp] at hpl
+    · rw [hm] at hpl; simp [toResp] at hpl
+  · intro a key kn' nowT' e1 e2 e3 e4
+    have hkw : kn'.wire = Tsig.lowerName kn.wire := by rw [ServerAnswer.parse_wire _ _ e4, h.ht]; rfl
+    have hkl : kn'.wire.length = kn.wire.length := by rw [hkw]; simp [Tsig.lowerName]
+    have e2' := e2
+    rw [h.ht] at e2'
+    rw [reserved_of_auth kn alg h.halg kn' hkl a e2' t.mac key.secret t nowT']
+    have e0 : (fieldsOf alg.labels rest).algName = alg.labels := rfl
+    rw [e0, canonName_length kn h.hkn, canonName_length alg h.halg] at hroom
+    simp only [macOther]
+    rw [← il]
+    cases tr with
+    | udp => simp only [decide_true, if_true] at hroom; unfold ServerContent.limOf; omega
+    | tcp =>
+      have : decide (Transport.tcp = Transport.udp) = false := by decide
+      simp only [this, Bool.false_eq_true, if_false] at hroom
+      unfold ServerContent.limOf; omega
+
+open QV.ServerScan in
 /-- **`C10_full` from row 3**: requests that do not reach a TSIG record (`C10_audit_pre_tsig`), rejected
     requests (`C10_audit_rejected`), authenticated requests with a no-data verdict (`C10_audit_row2`)
     and replies whose TSIG does not fit (`C10_audit_nofit`) pass the audit; the rows are exhaustive
@@ -2029,6 +2094,12 @@ theorem C10_of_row3 (h3 : C10_row3) : C10_full := by
     · exact C10_audit_pre_tsig cfg hcfg cat tr now req hpay hp16 hreq _ (Or.inr hv)
   · exact C10_audit_pre_tsig cfg hcfg cat tr now req hpay hp16 hreq _
       (Or.inl (by cases hh : (Spec.Server.specScan cat cfg.payload req).respond <;> simp_all))
+
+/-- **`C10_full`, modulo the two named hypotheses**: every clause of the audit, for every configuration,
+    transport, clock and request, holds as soon as `ScratchIndepI` (writer) and `DecodeCongr`
+    (`finish` + decoder) do — the whole server-side walk is proved. -/
+theorem C10_full_of (hSI : ServerContent.ScratchIndepI) (hDC : ServerContent.DecodeCongr) : C10_full :=
+  C10_of_row3 (C10_row3_of_compare (C10_row3_compare_of hSI hDC))
 
 /-! ## non-vacuity: concrete instances of the hypotheses used above -/
 
